@@ -49,6 +49,19 @@ func (e *End) LibSites() string {
 	return strings.Join(s, ",")
 }
 
+// LibRace returns the first happens-before race of this execution whose two
+// accesses are both inside library code, or nil. Checks that explore under the
+// sequential-consistency assumption use it as a side oracle: preemption only
+// at synchronisation operations is exhaustive only for race-free executions.
+func (e *End) LibRace() *RaceInfo {
+	for i := range e.Races {
+		if e.Races[i].Lib {
+			return &e.Races[i]
+		}
+	}
+	return nil
+}
+
 // NonTerminating reports a livelock: step horizon exceeded or an infinite
 // fair cycle detected.
 func (e *End) NonTerminating() bool { return e.Status == Horizon || e.Status == Spin }
